@@ -164,6 +164,17 @@ def edge_passwords(chk, name, h, w, klass, flags):
                               {"hasher": name, "ident": ident, "password": repr(pw), "other": repr(other)})
                 continue
             chk.evaluations += 3
+            # the older entry points compute the same function: genhash(pw, stored) reproduces stored, for another password it does not
+            if hasattr(hh, "genhash") and res == (True, False, True) and name not in ("django_disabled", "unix_disabled"):
+                try:
+                    g1, g2 = hh.genhash(pw, stored, **ctxkw), hh.genhash(other, stored, **ctxkw)
+                    if isinstance(g1, bytes):
+                        g1, g2 = g1.decode("ascii"), g2.decode("ascii")
+                    if g1 != stored or g2 == stored:
+                        chk.violation(f"{name}:edge:genhash", f"{name} (ident {ident}): genhash(pw, hash) {'differs from' if g1 != stored else 'equals'} the hash / genhash(other, hash) {'equals' if g2 == stored else 'differs from'} it",
+                                      {"hasher": name, "ident": ident, "hash": stored, "genhash": g1})
+                except Exception as e:
+                    chk.violation(f"{name}:edge:genhash:{type(e).__name__}", f"{name} (ident {ident}): genhash(pw, its own hash) raised {type(e).__name__}: {e}", {"hasher": name, "hash": stored})
             if res != (True, False, True):
                 chk.violation(f"{name}:edge:{ident or '-'}:{res}", f"{name} (ident {ident}): password {pw!r} / near miss {other!r} verify as {res}", {"hasher": name, "ident": ident, "hash": stored})
 
